@@ -564,18 +564,66 @@ theorem C14_dollar_tag_masked :
         == .strtab) = true := by
   decide +kernel
 
-/-- `getTransformedSQL` cache key: `sql` without header, `headerDB + ":" + sql` with one -/
-def cacheKey (hdr sql : Str) : Str := if hdr = [] then sql else hdr ++ ':' :: sql
+/-- PRE-FIX definition (before /repo commit 12df811), kept only to state what was wrong: the key was
+`sql` without a header and `headerDB + ":" + sql` with one -/
+def cacheKeyPreFix (hdr sql : Str) : Str := if hdr = [] then sql else hdr ++ ':' :: sql
 
-/-- the two keys collide: the header-less text "secret:<q>" addresses the entry primed by (header secret, q),
-while the permission side extracts its references from the text (database `default`) -/
-theorem C14_cache_key_collision_witness :
+/-- historical witness (fixed): under the pre-fix key the header-less text "secret:<q>" addressed the entry
+primed by (header secret, q), while the permission side extracts `default.cpu` from the text -/
+theorem C14_cache_key_prefix_collision_witness :
     let q := "SELECT canary FROM cpu LIMIT 7".toList
-    cacheKey [] ("secret:".toList ++ q) = cacheKey "secret".toList q ∧
+    cacheKeyPreFix [] ("secret:".toList ++ q) = cacheKeyPreFix "secret".toList q ∧
     validate ("secret:".toList ++ q) = .ok ∧
     refsChecked strWorld ("secret:".toList ++ q) [] = [⟨"default".toList, "cpu".toList⟩] ∧
     refsChecked strWorld q "secret".toList = [⟨"secret".toList, "cpu".toList⟩] := by
   decide +kernel
+
+/-- CURRENT key (regenerated shape: one unconditional assignment `headerDB + <sep byte> + sql`) -/
+def cacheSep : Char := Char.ofNat Arc.Generated.C14.cacheKeySepByte
+def cacheKey (hdr sql : Str) : Str := hdr ++ cacheSep :: sql
+
+theorem sep_inj (c : Char) {a b x y : Str} (ha : c ∉ a) (hx : c ∉ x) (h : a ++ c :: b = x ++ c :: y) :
+    a = x ∧ b = y := by
+  induction a generalizing x with
+  | nil =>
+    cases x with
+    | nil => simp at h; exact ⟨rfl, h⟩
+    | cons z x' =>
+      simp at h
+      exact absurd (by rw [← h.1]; simp) hx
+  | cons z a' ih =>
+    cases x with
+    | nil =>
+      simp at h
+      exact absurd (by rw [h.1]; simp) ha
+    | cons w x' =>
+      simp at h
+      obtain ⟨hzw, ht⟩ := h
+      have := ih (by intro hm; exact ha (List.mem_cons_of_mem _ hm)) (by intro hm; exact hx (List.mem_cons_of_mem _ hm)) ht
+      exact ⟨by rw [hzw, this.1], this.2⟩
+
+/-- a valid header (`validateHeaderDatabase`: empty or `validName`) never contains the separator byte -/
+theorem headerOK_nosep (h : Str) (hh : headerOK h = true) : cacheSep ∉ h := by
+  unfold headerOK at hh
+  cases h with
+  | nil => simp
+  | cons c cs =>
+    simp only [List.isEmpty_cons, Bool.false_or, validName, Bool.and_eq_true] at hh
+    obtain ⟨⟨h1, h2⟩, _⟩ := hh
+    intro hm
+    rcases List.mem_cons.mp hm with h0 | h0
+    · rw [← h0] at h1; revert h1; decide
+    · have := List.all_eq_true.mp h2 cacheSep h0
+      revert this; decide
+
+/-- **the repaired cache key cannot collide**: two requests with validated headers share a transform-cache
+entry only if they have the same header AND the same text (so the permission check of the request that is
+served the entry was made on exactly that (header, text) pair) -/
+theorem C14_cache_key_injective (h1 h2 s1 s2 : Str) (v1 : headerOK h1 = true) (v2 : headerOK h2 = true)
+    (h : cacheKey h1 s1 = cacheKey h2 s2) : h1 = h2 ∧ s1 = s2 :=
+  sep_inj cacheSep (headerOK_nosep h1 v1) (headerOK_nosep h2 v2) h
+
+example : cacheKey [] ("secret:SELECT 1".toList) ≠ cacheKey "secret".toList "SELECT 1".toList := by decide
 
 /-! ## composition -/
 
